@@ -493,6 +493,9 @@ func (ex *Exec) concreteInt(v Value, what string) int64 {
 		panic(fmt.Sprintf("%s: not an integer: %T", what, v))
 	}
 	if !t.IsConst() {
+		t = ex.simp(t)
+	}
+	if !t.IsConst() {
 		panic(fmt.Sprintf("%s: symbolic value not supported (case-split it in the harness): %s", what, t))
 	}
 	return sext(t.V, t.Sort.W)
